@@ -1248,7 +1248,7 @@ fn parse_layer_indexes(
                             layer_expr,
                             "layer name after {deflayer_keyword} must be a string when enclosed within one pair of parentheses"
                         ))?;
-                    let layer_opts = parse_layer_opts(&list[1..])?;
+                    let layer_opts = parse_layer_opts(&list[1..], vars)?;
                     let icon = layer_opts
                         .get(DEFLAYER_ICON[0])
                         .map(|icon_s| icon_s.trim_atom_quotes().to_owned());
@@ -1262,7 +1262,7 @@ fn parse_layer_indexes(
         // Check if user tried to use parentheses directly - `(` and `)`
         // or escaped them like in kmonad - `\(` and `\)`.
         for subexpr in subexprs {
-            if let Some(list) = subexpr.list(None) {
+            if let Some(list) = subexpr.list(Some(vars)) {
                 if list.is_empty() {
                     bail_expr!(
                         subexpr,
